@@ -82,6 +82,10 @@ func (s *slicer) walk(v ssa.Value, d int) {
 		for _, b := range v.Bindings {
 			s.walk(b, d+1)
 		}
+	case *ssa.Next:
+		s.walk(v.Iter, d+1)
+	case *ssa.Range:
+		s.walk(v.X, d+1)
 	case *ssa.Alloc:
 		// values stored into the alloc (or into its fields / elements)
 		s.storesInto(v, d)
